@@ -41,7 +41,10 @@ def run(ctx: core.Ctx) -> int:
     n_s = 1500 if q else 25000
     sample = ctx.gen_json("Precedence", ctx.cfg_with("Sample_C04.cfg", "t", SampleN=n_s), workers=1,
                           extra=["-seed", str(ctx.seed + 11)])
-    mc_viol += []
+    # the same space with directory names that sort before "REUSE.toml" as strings ('3', 'D'): order of the walk
+    alt = ctx.gen_json("Precedence", ctx.cfg_with("Sample_C04.cfg", "alt", SampleN=500 if q else 8000, D1="D1Alt", D2="D2Alt"),
+                       workers=1, extra=["-seed", str(ctx.seed + 12)])
+    sample += alt
     cases = [to_case(i + 1, g, ctx.seed) for i, g in enumerate(gens + sample)]
     # 3. replay
     events = ctx.pmap(projmodel.run_project_case, cases, chunksize=16)
